@@ -154,7 +154,7 @@ CHECKS["C16"] = dict(
     harnesses=[
         dict(pkg="server", name="C16_whole", bound="history: 2 holds on 2 keys, one released, a re-entrant hold entered 3 times and left once (live at depth 2), rotation, optionally a further hold in the new append file; uninterrupted compaction", flags=["-witness", "1"], reach=["end"]),
         dict(pkg="server", name="C16_update", bound="(hold with or without the rcount-is-priority timeout flag) a persisted hold (E=100 s or min) whose holder changes its terms one second later (update flag: E=200/300, optionally Count 3), then 0 / 1 / 3 / 70 s pass before rotation and uninterrupted compaction; holds recovered with deadlines, Count, Rcount compared", flags=["-witness", "1"], reach=["end"]),
-        dict(pkg="server", name="C16_crash", bound="same history; crash after each individual file-system mutation of the compaction (fork over all of them)", flags=[], reach=["end", "window"], native=False),
+        dict(pkg="server", name="C16_crash", bound="(the surviving hold with or without a value) same history; crash after each individual file-system mutation of the compaction (fork over all of them)", flags=[], reach=["end", "window"], native=False),
         dict(pkg="server", name="C16_renamefail", bound="same history; the directory image of the remove-before-rename window produced without a crash (native twin of the recorded finding)", flags=["-witness", "1"], reach=[]),
     ],
 )
